@@ -527,7 +527,7 @@ class ListMatcher(Matcher):
 
             return v
         else:
-            return ''
+            return b''
 
     def value_as(self, astype):
         decoder = self._format.decoder(astype)
